@@ -307,7 +307,41 @@ def check_latex(R, prog):
         R.bad(F("ONE-ROW-PER-CLAUSE", doc, "to_latex_document rows", "the document must call _print_latex on the formula itself"))
 
 
+def semantic_guess_format(prog):
+    """fold guess_output_format for file names / file objects with every relevant extension and every request"""
+    import types
+    from ..fold import Folder, Raised
+    from ..ql import Unknown
+    g = prog.func(CNFIO, "guess_output_format")
+    cases = []
+    for name, ext in (("f.tex", "latex"), ("f.opb", "opb"), ("f.cnf", "dimacs"), ("f", "dimacs"), ("dir.tex/f", "dimacs"), ("a.b.opb", "opb"), ("f.txt", "dimacs")):
+        cases.append((name, None, ext))
+        cases.append((types.SimpleNamespace(name=name), None, ext))
+        for req in ("latex", "dimacs", "opb"):
+            cases.append((name, req, req))
+    cases.append((types.SimpleNamespace(), None, "dimacs"))          # a stream without a name
+    cases += [("f.tex", "pdf", ValueError), ("f", "", ValueError), ("f.opb", "LaTeX", ValueError)]
+    for name, req, want in cases:
+        f = Folder()
+        shown = name if isinstance(name, str) else "<file object %s>" % vars(name)
+        try:
+            got = f.call_function(g.node, [name, req], {})
+        except Raised as r:
+            got = ValueError if r.cls == "ValueError" else r.cls
+        except Unknown as e:
+            return None, "cannot fold guess_output_format(%s, %r): %s" % (shown, req, e)
+        if got != want:
+            return False, "guess_output_format(%s, %r) gives %r; documented: %s" % (shown, req, got, "ValueError" if want is ValueError else want)
+    return True, "%d (file name / object, request) cases folded: explicit request wins, .tex -> latex, .opb -> opb, else dimacs, unknown request -> ValueError" % len(cases)
+
+
 def check_format_select(R, prog):
+    from ._shared import with_semantics
+    g = prog.func(CNFIO, "guess_output_format")
+    with_semantics(R, P, lambda T: _shape_format_select(T, prog), semantic_guess_format(prog), "guess_output_format", g, rule="FORMAT-SELECT")
+
+
+def _shape_format_select(R, prog):
     g = prog.func(CNFIO, "guess_output_format")
     req = g.params[1]
     stmts = stmts_in(g.node)
